@@ -33,7 +33,7 @@ FUEL = 30000          # statement/expression steps per run (thorough: x4)
 
 MODEL_FILES = ["Msl/Syntax.v", "Msl/Ops.v", "Msl/Sem.v", "Msl/Run.v", "Msl/Layout.v", "Msl/Decode.v",
                "Msl/Catalogue.v", "Msl/CatalogueProofs.v", "Msl/FloatConv.v", "Msl/FloatConvProofs.v", "Msl/VectorProofs.v",
-               "Msl/CatalogueTie.v"]
+               "Msl/VectorProofs2.v", "Msl/IrMeaning.v", "Msl/Agreement.v", "Msl/CatalogueTie.v"]
 
 
 # ------------------------------------------------------------------ helpers
@@ -210,7 +210,13 @@ def judge_probes(ctx, runner, cases, srcs):
         n_eval += 1
         distinct.add((c["key"], json.dumps(c["vals"], sort_keys=True)))
         if not a.get("ok"):
-            continue          # the IR reference does not define this case (not modelled): nothing to compare
+            # the reference defines every operator of the probe list on every operand: anything else is a broken tie
+            key = "probe-reference:%s" % c["key"].split("@")[0]
+            if key not in bad_ops:
+                bad_ops[key] = True
+                ctx.violation("probe %s: the IR reference interpreter does not evaluate the probe program: %s" % (c["key"], a.get("msg")),
+                              files={"probe.wgsl": srcs.get(c["key"], "")}, found_input=False, key=key, broken="reference semantics on a probe")
+            continue
         what = None
         if not b.get("ok"):
             what = "MSL execution fails: %s" % b.get("msg")
@@ -240,7 +246,7 @@ def queue_program(ctx, enums, runner, name, r, setnames, mode, rt, n_inputs, tag
     for epi, ep in enumerate(ir["EntryPoints"]):
         base_plan = mslcorr.Plan(enums, ir, epi)
         if base_plan.why:
-            out.append({"name": name, "ep": ep["Name"], "oof": base_plan.why})
+            out.append({"name": name, "ep": ep["Name"], "oof": base_plan.why, "tag": tag, "benign": True})
             continue
         rng = ctx.rng.fork("inputs/%s/%s" % (name, ep["Name"]))
         inputs = [base_plan.make_input(rng.fork(str(i)), mode=mode, rt_len=rt, k=i % 3) for i in range(n_inputs)]
@@ -250,18 +256,19 @@ def queue_program(ctx, enums, runner, name, r, setnames, mode, rt, n_inputs, tag
         for sn in setnames:
             m = r["msl"].get(sn, {})
             if "text" not in m:
-                out.append({"name": name, "ep": ep["Name"], "set": sn, "mslerr": m.get("err") or m.get("panic") or str(m)})
+                out.append({"name": name, "ep": ep["Name"], "set": sn, "mslerr": m.get("err") or m.get("panic") or str(m), "tag": tag})
                 continue
             try:
                 ast = mslread.parse(m["text"])
             except mslread.OutOfFragment as e:
-                out.append({"name": name, "ep": ep["Name"], "set": sn, "oof": "reader: %s" % e})
+                out.append({"name": name, "ep": ep["Name"], "set": sn, "oof": "reader: %s" % e, "tag": tag, "text": m["text"]})
                 continue
             epn = mslcorr.entry_names(m["info"]).get(ep["Name"], ep["Name"])
             epf = [f for f in ast["funcs"] if f["name"] == epn]
             if not epf:
                 why = [u for u in ast["unparsed"] if u["name"] == epn]
-                out.append({"name": name, "ep": ep["Name"], "set": sn, "oof": "entry point outside the reader's fragment: %s" % (why or "not found")})
+                out.append({"name": name, "ep": ep["Name"], "set": sn, "tag": tag, "text": m["text"],
+                            "oof": "entry point outside the reader's fragment: %s" % (why or "not found")})
                 continue
             plan = base_plan
             if slot_maps and sn in slot_maps:
@@ -299,10 +306,19 @@ def judge_programs(ctx, runner, cases, srcs, stats):
         if "oof" in c:
             stats["out_of_fragment"] += 1
             stats["oof_reasons"][c["oof"][:60]] = stats["oof_reasons"].get(c["oof"][:60], 0) + 1
+            if c.get("tag") == "prog" and not c.get("benign"):
+                # the hand-written corpus is inside the fragment on the pinned tree: leaving it is a broken tie
+                report("program %s (entry point %s, options %s) was written to be inside the validated fragment, but the emitted MSL can "
+                       "no longer be read: %s" % (name, c.get("ep"), c.get("set"), c["oof"]),
+                       {"input.wgsl": srcs.get(name, ""), "emitted.msl": c.get("text", "")}, "left-fragment:%s" % name)
             continue
         if "mslerr" in c:
-            # C08's business (valid program rejected by the backend); not a meaning question
+            # C08's business (valid program rejected by the backend); not a meaning question -- except for the
+            # hand-written corpus, which every option set accepts on the pinned tree
             stats["msl_rejects"] += 1
+            if c.get("tag") == "prog":
+                report("program %s (entry point %s): msl.Compile with options %s fails: %s" % (name, c.get("ep"), c.get("set"), c["mslerr"]),
+                       {"input.wgsl": srcs.get(name, "")}, "msl-rejects:%s" % name)
             continue
         plan = c["plan"]
         lk = (name, c["ep"], c["set"])
@@ -326,9 +342,13 @@ def judge_programs(ctx, runner, cases, srcs, stats):
             continue
         if not b.get("ok"):
             msg = str(b.get("msg"))
-            if b.get("kind") == "outoffuel" or msg.startswith("not modelled") or b.get("kind") == "decode":
+            if b.get("kind") == "outoffuel" or msg.startswith("not modelled") or b.get("kind") in ("decode", "crash"):
                 stats["out_of_fragment"] += 1
                 stats["oof_reasons"][msg[:60]] = stats["oof_reasons"].get(msg[:60], 0) + 1
+                if c.get("tag") == "prog":
+                    report("program %s (entry point %s, options %s) was written to be inside the validated fragment, but the MSL "
+                           "interpreter cannot follow the emitted code: %s %s" % (name, c["ep"], c["set"], b.get("kind"), msg),
+                           {"input.wgsl": srcs.get(name, ""), "emitted.msl": c["text"]}, "left-fragment:%s" % name)
                 continue
             if c["set"] == "v31_nozero" and has_workgroup(plan):
                 stats["intentional_meaning_change"] += 1      # workgroup memory deliberately left uninitialised
@@ -395,8 +415,16 @@ def cap_violations(ctx):
 
 
 def run(ctx):
+    import time
+    T = {}
+    t_last = [time.time()]
+
+    def lap(name):
+        T[name] = round(time.time() - t_last[0], 1)
+        t_last[0] = time.time()
     cap_violations(ctx)
     tools = vcheck.build_harness(["msldrive", "goextract"])
+    lap("build_harness")
     broken = None
     gen_error = None
 
@@ -405,7 +433,7 @@ def run(ctx):
     try:
         ok, failed, log = vcheck.proof_step(ctx, "Props/C04.v", MODEL_FILES, gen_writer=gw,
                                             extra_obligation_files=["Msl/CatalogueTie.v", "Msl/CatalogueProofs.v", "Msl/FloatConv.v", "Msl/FloatConvProofs.v",
-                                                                    "Msl/VectorProofs.v", "Msl/Run.v", "Msl/Layout.v", "Msl/Decode.v"])
+                                                                    "Msl/VectorProofs.v", "Msl/VectorProofs2.v", "Msl/IrMeaning.v", "Msl/Agreement.v", "Msl/Run.v", "Msl/Layout.v", "Msl/Decode.v"])
     except gen.GenError as e:
         ok, failed, log = False, ["Gen/MslOpTable.v"], str(e)
         gen_error = str(e)
@@ -436,8 +464,10 @@ def run(ctx):
             except Exception as e:
                 ctx.cov["missing_entries_error"] = str(e)[:300]
 
+    lap("coq_proof_step")
     irrun = ocamlbuild.build("irrun")
     mslrun = ocamlbuild.build("mslrun")
+    lap("extract_tools")
     enums = mslcorr.Enums(tools)
     workers = max(2, min(8, vcheck.NCPU // 2))
     runner = Runner(irrun, mslrun, workers)
@@ -451,7 +481,7 @@ def run(ctx):
         import hashlib
         pick = lambda k: (hashlib.sha256(k.encode()).digest()[0] + ctx.seed) % 4 == 0
         probes = [p for p in all_probes if p[2] == 1 or (p[0].startswith(mslprobe.REDUCING) and p[2] == 2) or (p[2] > 1 and pick(p[0]))]
-    probe_cases, probe_srcs = run_probes(ctx, tools, enums, runner, probes, ctx.scale(9, 40))
+    probe_cases, probe_srcs = run_probes(ctx, tools, enums, runner, probes, ctx.scale(9, 120))
 
     # ---- whole programs
     setnames_all = list(mslcorr.OPTSETS)
@@ -476,7 +506,7 @@ def run(ctx):
         else:
             others = [s for s in setnames_all if s != "default"]
             sets = ["default", others[(i + ctx.seed) % len(others)]]
-        prog_cases += queue_program(ctx, enums, runner, name, r, sets, d["mode"], d["rt"], ctx.scale(2, 8), "prog")
+        prog_cases += queue_program(ctx, enums, runner, name, r, sets, d["mode"], d["rt"], ctx.scale(2, 16), "prog")
         # per-entry-point resource maps / FakeMissingBindings
         o1, sl1 = mslcorr.binding_optset(r["ir"], enums, "epmap")
         o2, sl2 = mslcorr.binding_optset(r["ir"], enums, "fake", fake=True)
@@ -487,7 +517,7 @@ def run(ctx):
         r = res2.get(n)
         if r and "ir" in r:
             d = mslprogs.P[n]
-            prog_cases += queue_program(ctx, enums, runner, n, r, ["epmap", "fake"], d["mode"], d["rt"], ctx.scale(1, 4), "bindings", slot_maps=sl)
+            prog_cases += queue_program(ctx, enums, runner, n, r, ["epmap", "fake"], d["mode"], d["rt"], ctx.scale(1, 4), "prog", slot_maps=sl)
 
     # ---- repository shaders (compute entry points inside the fragment)
     corp = nagarun.corpus()
@@ -502,12 +532,14 @@ def run(ctx):
             continue
         ncorp += 1
         prog_cases += queue_program(ctx, enums, runner, name, r, ["default", "v12_restrict"] if ctx.thorough else ["default"],
-                                    "small", 4, ctx.scale(1, 3), "corpus", fuel=ctx.scale(8000, 40000))
+                                    "small", 4, ctx.scale(1, 6), "corpus", fuel=ctx.scale(8000, 40000))
 
     # ---- bounds-check policies with hostile indices (C15): the policy written out in WGSL is the reference
     pol_cases = queue_policies(ctx, tools, enums, runner, srcs)
 
+    lap("compile_and_queue")
     runner.run()
+    lap("interpreters")
 
     n_eval, n_distinct = judge_probes(ctx, runner, probe_cases, probe_srcs)
     judge_programs(ctx, runner, prog_cases, srcs, stats)
@@ -528,6 +560,8 @@ def run(ctx):
     ctx.cov["bounds_policies"] = {"runs": pstats["runs"], "compared": pstats["compared"], "disagreements": pstats["disagreements"],
                                   "programs": len(mslprogs.POLICY), "out_of_fragment": pstats["out_of_fragment"],
                                   "inputs_undefined_in_reference": pstats["ir_undefined"]}
+    lap("judge")
+    ctx.cov["phase_seconds"] = T
     ctx.cov["programs"] = nprog + ncorp + len(mslprogs.POLICY)
     ctx.cov["disagreements_checked"] = stats["disagreements"] + pstats["disagreements"]
     ctx.cov["evaluations"] = n_eval + stats["runs"] + pstats["runs"]
@@ -592,7 +626,7 @@ def queue_policies(ctx, tools, enums, runner, srcs):
             continue
         rng = ctx.rng.fork("policy/" + name)
         inputs = []
-        for i in range(ctx.scale(4, 24)):
+        for i in range(ctx.scale(4, 60)):
             inp = plan_h.make_input(rng.fork(str(i)), mode="finite", rt_len=d["rt"], k=0)
             # the uniform `ix` holds the hostile indices
             for h, sp, b, ty in plan_h.globals:
